@@ -621,11 +621,11 @@ class Subscription(BaseSubscription):
         return filter_obj
 
     def build_query(self, filters):
-        select = """
-            SELECT id, created_at, kind, pubkey, tags, sig, content FROM events
-        """
-        where = set()
-        limit = None
+        select = (
+            "SELECT id, created_at, kind, pubkey, tags, sig, content FROM events"
+        )
+        # every filter is limited on its own: {where clause: limit}
+        subqueries = {}
         new_filters = []
         for filter_obj in filters:
             subwhere = []
@@ -636,24 +636,23 @@ class Subscription(BaseSubscription):
                 filter_obj = NostrQuery()
                 subwhere = []
             if subwhere:
-                subwhere = " AND ".join(subwhere)
-                where.add(subwhere)
+                where = " AND ".join(subwhere)
             else:
-                where.add("false")
+                where = "false"
             if filter_obj.limit is not None:
                 limit = min(filter_obj.limit, self.default_limit)
+            else:
+                limit = self.default_limit
+            subqueries[where] = max(limit, subqueries.get(where, 0))
             new_filters.append(filter_obj)
-        if where:
-            select += " WHERE (\n\t"
-            select += "\n) OR (\n".join(where)
-            select += ")"
-        if limit is None:
-            limit = self.default_limit
-        select += f"""
-            ORDER BY created_at DESC
-            LIMIT {limit}
-        """
-        return sa.text(select), new_filters
+        if not subqueries:
+            subqueries["false"] = 0
+        query = "\nUNION\n".join(
+            f"SELECT * FROM ({select} WHERE {where} ORDER BY created_at DESC LIMIT {limit})"
+            for where, limit in subqueries.items()
+        )
+        query += "\nORDER BY created_at DESC"
+        return sa.text(query), new_filters
 
 
 class QueryGarbageCollector(BaseGarbageCollector):
